@@ -152,7 +152,29 @@ theorem tempCopy_PS (c : Ctx) (h : PS c) : OutcomeP PS (opTempCopy c) := by
     · trivial
   · exact die_PS c h
 
+theorem slotat_PS (c : Ctx) (x : Int) (h : PS c) : PS (slotat c x).2 := by
+  obtain ⟨l, hj⟩ := h
+  exact ⟨l, ⟨by rw [slotat_seg]; exact hj.linked, by rw [slotat_seg]; exact hj.clean, by rw [slotat_seg, slotat_is]; exact hj.isok⟩⟩
+
+theorem putGlyph_PS (c : Ctx) (k : Nat) (h : PS c) : OutcomeP PS (opPutGlyph c k) := by
+  unfold opPutGlyph
+  split
+  · obtain ⟨l, hj⟩ := h
+    exact ⟨l, hj.same (by simp only [withSeg_seg]; exact StreamSame.upd _ _ _ (fun _ => ⟨rfl, rfl, rfl, rfl⟩)) rfl⟩
+  · trivial
+
+theorem putSubs_PS (c : Ctx) (r : Int) (i o : Nat) (h : PS c) : OutcomeP PS (opPutSubs c r i o) := by
+  unfold opPutSubs
+  simp only []
+  have h' := slotat_PS c r h
+  split
+  · split
+    · obtain ⟨l, hj⟩ := h'
+      exact ⟨l, hj.same (by simp only [withSeg_seg]; exact StreamSame.upd _ _ _ (fun _ => ⟨rfl, rfl, rfl, rfl⟩)) rfl⟩
+    · trivial
+  · exact h'
+
 theorem ops_PS : OpsPreserve PS :=
-  ⟨next_PS, insert_PS, delete_PS, putCopy_PS, assoc_PS, tempCopy_PS, attrSet_PS⟩
+  ⟨next_PS, insert_PS, delete_PS, putCopy_PS, assoc_PS, tempCopy_PS, attrSet_PS, putGlyph_PS, putSubs_PS, slotat_PS⟩
 
 end GrVerif.Action
